@@ -370,6 +370,17 @@ def c10_program_checks(v, tier, seed):
         for u in ("tis", "not"):
             progs.append((op, ident(0), ("U", u, ident(1))))
             progs.append((op, ("U", u, ident(0)), ident(1)))
+    # truth operators applied to chains that themselves end in a truth operator, and to each other
+    for neg in (0, 1):
+        for u in ("tis", "not"):
+            for w in ("tis", "not"):
+                progs.append(("U", u, ("G", ("E", ("C", neg, ident(0), ident(1)), ("U", w, ident(2))))))
+                progs.append(("U", u, ("G", ("E", ("E", ("C", neg, ident(0), ident(1)), ("C", neg, ident(2), ident(3))), ("U", w, ident(4))))))
+    for u in ("tis", "not"):
+        for w in ("tis", "not"):
+            progs.append(("U", u, ("U", w, ident(0))))
+            progs.append(("U", u, ("G", ("U", w, ident(0)))))
+            progs.append(("U", u, ("G", ("&", ident(0), ("U", w, ident(1))))))
     for neg in (0, 1):
         progs.append(("E", ("C", neg, ident(0), ident(1)), ("G", ("C", neg, ident(2), ident(3)))))     # u ?> b |> (f ?> d)
         progs.append(("E", ("G", ("C", neg, ident(0), ident(1))), ident(2)))                           # (a ?> b) |> c
